@@ -385,7 +385,12 @@ func viaFor(input string) string {
 }
 
 func (c *Ctx) crdEnv(args []string, stdin []byte, env []string, to time.Duration) run.Result {
-	return run.Run(c.Bin, run.Cmd{Args: args, Stdin: stdin, Env: env, Timeout: to})
+	r := run.Run(c.Bin, run.Cmd{Args: args, Stdin: stdin, Env: env, Timeout: to})
+	if r.TimedOut && to >= 20*time.Second && to < 600*time.Second {
+		// a loaded machine is not a hang: once more, with five times the patience, before anybody says "did not terminate"
+		r = run.Run(c.Bin, run.Cmd{Args: args, Stdin: stdin, Env: env, Timeout: 5 * to})
+	}
+	return r
 }
 
 func chars(s string) []int {
